@@ -173,6 +173,15 @@ def judge(stats: Stats, assign, first, rest, doc, rng, origin):
         stats.fail("result-differs:%s" % tag, case, "%r under %s gives %s; %r in the default environment gives %s" % (
             text_c, assign, short([x[0] for x in a[1]], 140), text_d, short([y[0] for y in b[1]], 140)))
         return None
+    # findall agrees with finditer in the custom environment too (compound operators are spelled by the environment)
+    stats.ev()
+    try:
+        fa = env.findall(text_c, doc, filter_context=CTX)
+        if len(fa) != len(a[1]) or any(not lib.same_node(x, y[1]) and not (isinstance(x, list) and y[0] == ()) for x, y in zip(fa, a[1])):
+            stats.fail("findall-differs:%s" % tag, case, "in the custom environment %s findall(%r) gives %s but finditer gives %s" % (
+                assign, text_c, short(fa, 140), short([y[1] for y in a[1]], 140)))
+    except Exception as e:  # noqa: BLE001
+        stats.fail("findall-raises:%s:%s" % (type(e).__name__, tag), case, "findall(%r) raised %s" % (text_c, e))
     # string form produced by the custom environment recompiles there to an equivalent query
     stats.ev()
     try:
